@@ -21,6 +21,7 @@ from typing import NamedTuple, Optional, Sequence, Type, cast
 
 from boolean.boolean import ParseError
 from jinja2 import Environment, PackageLoader, Template
+from jinja2.exceptions import TemplateError, TemplateRuntimeError
 from license_expression import ExpressionError
 
 from . import ReuseInfo
@@ -63,17 +64,24 @@ def _create_new_header(
         CommentCreateError: if a comment could not be created.
         MissingReuseInfoError: if the generated comment is missing SPDX
             information.
+        TemplateError: if the template could not be rendered.
     """
     if template is None:
         template = DEFAULT_TEMPLATE
     if style is None:
         style = cast(Type[CommentStyle], PythonCommentStyle)
 
-    rendered = template.render(
-        copyright_lines=sorted(reuse_info.copyright_lines),
-        contributor_lines=sorted(reuse_info.contributor_lines),
-        spdx_expressions=sorted(map(str, reuse_info.spdx_expressions)),
-    ).strip("\n")
+    try:
+        rendered = template.render(
+            copyright_lines=sorted(reuse_info.copyright_lines),
+            contributor_lines=sorted(reuse_info.contributor_lines),
+            spdx_expressions=sorted(map(str, reuse_info.spdx_expressions)),
+        ).strip("\n")
+    except TemplateError:
+        raise
+    except Exception as error:
+        # The expressions of a template can raise anything at all.
+        raise TemplateRuntimeError(str(error)) from error
 
     if template_is_commented:
         result = rendered
@@ -83,7 +91,11 @@ def _create_new_header(
         )
 
     # Verify that the result contains all ReuseInfo.
-    new_reuse_info = extract_reuse_info(result)
+    try:
+        new_reuse_info = extract_reuse_info(result)
+    except (ExpressionError, ParseError) as error:
+        # The template rendered a license expression that cannot be parsed.
+        raise MissingReuseInfoError() from error
     # Compare the expressions as rendered: they may be given as strings.
     if reuse_info.copyright_lines != new_reuse_info.copyright_lines or set(
         map(str, reuse_info.spdx_expressions)
